@@ -34,6 +34,7 @@ type cfg struct {
 	Name    string
 	Relist  bool // the consumer also performs one relist (list snapshot, reconcile, watcher.reset) at a scheduler-chosen moment
 	Hist    []mut
+	Paced   bool                       // one change at a time (quiescence in between)
 	Faults  map[int]fakeapi.WatchFault // by watch call number
 	Mode    string
 	Bound   int
@@ -57,6 +58,9 @@ type inst struct {
 
 func history(n int) []mut {
 	h := []mut{{"set", "a", "l=1"}, {"set", "b", "l=1"}, {"set", "a", "l=0"}, {"del", "b", ""}}
+	for len(h) < n {
+		h = append(h, h[len(h)-4]) // long histories repeat the cycle (every step still changes the content)
+	}
 	return h[:n]
 }
 
@@ -124,6 +128,11 @@ func (in *inst) run() {
 	// the server history, at scheduler chosen instants
 	go func() {
 		for _, m := range c.Hist {
+			if c.Paced {
+				// a consumer that keeps up: the next change happens when the last one has gone all the way through (the
+				// watch path drops frames when more than a buffer's worth is outstanding - that is C03's/C10's subject)
+				vs.SleepIdle(time.Millisecond)
+			}
 			if m.op == "set" {
 				in.srv.Set("ns", m.name, hx.ParseLabels(m.labels))
 			} else {
@@ -283,6 +292,11 @@ func Property() runner.Property {
 			for _, pos := range []int{2, 3} {
 				out = append(out, scenario(cfg{Name: fmt.Sprintf("bookmark+close@%d/h%d", pos, hn), Hist: history(hn), Faults: map[int]fakeapi.WatchFault{1: W("bookmark+close", pos)}, Mode: "S2", Bound: d + 1}))
 			}
+			// long streams on the default schedule and its immediate neighbours: nothing depends on how many frames have
+			// passed or on how many digits a version has (versions run to 120 and, from 950, across 999 -> 1000)
+			out = append(out, scenario(cfg{Name: "ok/h120", Hist: history(120), Paced: true, Mode: "D0"}))
+			out = append(out, scenario(cfg{Name: "close@60/h120", Hist: history(120), Paced: true, Faults: map[int]fakeapi.WatchFault{1: W("close", 60)}, Mode: "D0"}))
+			out = append(out, scenario(cfg{Name: "close@100,error,close@20/h120/from950", StartRV: 950, Hist: history(120), Paced: true, Faults: map[int]fakeapi.WatchFault{1: W("close", 100), 2: W("error", 0), 3: W("close", 20)}, Mode: "D0"}))
 			// versions cross 9 -> 10 (a resume version compared as a string goes wrong there)
 			for _, pos := range []int{1, 2, 3} {
 				out = append(out, scenario(cfg{Name: fmt.Sprintf("digit-boundary/close@%d/h4", pos), StartRV: 8, Hist: history(4), Faults: map[int]fakeapi.WatchFault{1: W("close", pos)}, Mode: "S2", Bound: d}))
